@@ -20,7 +20,7 @@ RULE = ('connection level: histories of received DATA on up to 8 streams, acknow
         'outstanding; distinct by concrete trace')
 ASSUMPTIONS = ['the unit-level part calls h2.windows.WindowManager with the call pattern used by h2.stream']
 TIERS = {'quick': {'cases': 6000, 'size': 400},
-         'thorough': {'cases': 300000, 'size': 600}}
+         'thorough': {'cases': 1200000, 'size': 600}}
 
 MAXIMA = [0, 1, 2, 3, 4, 5, 7, 8, 1023, 1024, 1025, 4095, 4096, 4097, 65535, 2**31 - 1]
 
